@@ -630,6 +630,18 @@ class ExcFlow:
                 add('UnicodeDecodeError', 'decode', n, f'errors={errs!r}' if ok else None)
             elif cn == 'next' and len(n.args) == 1:
                 add('StopIteration', 'next', n)
+            elif self.ext_name(mod, n) == 'itertools.islice' and len(n.args) >= 2:
+                # islice(it, stop) / islice(it, start, stop[, step]): negative numbers raise ValueError
+                undecided = []
+                for a in n.args[1:]:
+                    v = ev_const(a)
+                    if isinstance(a, ast.Constant) and a.value is None or (isinstance(v, int) and v >= 0):
+                        continue
+                    if isinstance(a, ast.Name) and self._guarded_nonnegative(mod, fn, n, a.id):
+                        continue
+                    undecided.append(unparse(a))
+                add('ValueError', 'stdlib', n, None if undecided else 'bounds are None, non-negative constants or tested non-negative').text += (
+                    f'  [itertools.islice: a negative {undecided[0]} raises]' if undecided else '')
             elif self.ext_name(mod, n) in EXT_RAISERS:
                 # a standard-library function that raises on part of its domain, called with a run-time argument
                 xn = self.ext_name(mod, n)
@@ -974,6 +986,41 @@ class ExcFlow:
             if a and a[0] == 'symbol' and not a[3]:
                 return f'{a[1]}.{a[2]}'
         return None
+
+    def _guarded_nonnegative(self, mod, fn, site, name):
+        """Is `site` only reached when `name` was tested positive / non-negative (enclosing if / conditional expression), with no
+        assignment to it in between?"""
+        def positive(t, negate):
+            if isinstance(t, ast.BoolOp) and isinstance(t.op, ast.And) and not negate:
+                return any(positive(v, False) for v in t.values)
+            if isinstance(t, ast.BoolOp) and isinstance(t.op, ast.Or) and negate:
+                return any(positive(v, True) for v in t.values)
+            if isinstance(t, ast.UnaryOp) and isinstance(t.op, ast.Not):
+                return positive(t.operand, not negate)
+            if isinstance(t, ast.Compare) and len(t.ops) == 1:
+                l, op, r = t.left, t.ops[0], t.comparators[0]
+                c = self.inv.folder.try_ev(mod.name, r, default=None)
+                if isinstance(l, ast.Name) and l.id == name and isinstance(c, int):
+                    if not negate:
+                        return (isinstance(op, ast.Gt) and c >= -1) or (isinstance(op, ast.GtE) and c >= 0)
+                    return (isinstance(op, ast.Lt) and c >= 0) or (isinstance(op, ast.LtE) and c >= -1)
+                c = self.inv.folder.try_ev(mod.name, l, default=None)
+                if isinstance(r, ast.Name) and r.id == name and isinstance(c, int):
+                    if not negate:
+                        return (isinstance(op, ast.Lt) and c >= -1) or (isinstance(op, ast.LtE) and c >= 0)
+                    return (isinstance(op, ast.Gt) and c >= 0) or (isinstance(op, ast.GtE) and c >= -1)
+            return False
+        child, cur = site, mod.parents.get(site)
+        while cur is not None and cur is not fn:
+            if isinstance(cur, (ast.If, ast.IfExp, ast.While)):
+                body = cur.body if isinstance(cur.body, list) else [cur.body]
+                orelse = cur.orelse if isinstance(cur.orelse, list) else [cur.orelse]
+                if any(child is b for b in body) and positive(cur.test, False):
+                    return True
+                if any(child is b for b in orelse) and positive(cur.test, True):
+                    return True
+            child, cur = cur, mod.parents.get(cur)
+        return False
 
     def _maybe_str(self, mod, e):
         t = self.ctx.types.type_of(mod.name, e)
